@@ -111,6 +111,7 @@ def van_leer(rhol=0.0, rhor=1.0, pl=0.0, pr=1.0,
 
     # Now Iterate using NR to obtain the star values
     iteration = 0
+    converged = 0
     while iteration < niter:
         pstar_old = pstar
 
